@@ -7,6 +7,7 @@ runs the built binary against that model, exit status and both output streams.
 -/
 import JulianVerif.Lemmas.CliOpts
 import JulianVerif.Lemmas.CliSpec
+import JulianVerif.Lemmas.CliFuel
 set_option linter.unusedSimpArgs false
 namespace JV.C19
 open JV Cli
@@ -96,5 +97,14 @@ theorem negative_numbers (o : Options) (k : Fin 10) (rest : Bytes) (s : String)
   · have hc : isAsciiDigit (Char.ofNat (digitByte k).toNat) = true := by
       revert k; decide
     exact neg_is_jdn o _ hc s hdig
+
+/-- **the model's fuel is not observable**: `fromParser` is a structural recursion on a fuel
+counter, whose exhaustion it reports as an error; that case is unreachable — the parser's
+measure (bytes and arguments still to be consumed) strictly decreases, `fuelFor argv` exceeds
+it, and any larger amount of fuel gives the same command.  So no theorem above holds merely
+because the model gave up early. -/
+theorem fuel_not_observable (argv : List Bytes) (extra : Nat) :
+    fromParser (fuelFor argv + extra) ⟨.none, argv⟩ {} [] = parseCommand argv :=
+  parseCommand_fuel argv extra
 
 end JV.C19
